@@ -528,8 +528,9 @@ func (r *runner) do(a *act) {
 		L := a.Pos + cnt + r.rng.Intn(3)
 		for _, thr := range r.thresholds(a.H) {
 			sent := r.rng.Uint64() & mask(wd)
-			rec := tr.E{"op": "iter", "h": a.H, "w": wd, "dir": a.Dir, "n": a.N, "pos": a.Pos,
+			rec := tr.E{"op": "iter", "h": a.H, "w": wd, "dir": a.Dir, "n": clampN(a.N), "pos": a.Pos,
 				"add": toLimbs(add, wd), "len": L, "sent": toLimbs(sent, wd), "thr": int(thr)}
+			noteN(rec, a.N)
 			bmp.VerifSetSparseMagic(thr)
 			r.emit(rec, func() interface{} {
 				c, out := w.iterCall(&b, L, add, sent)
@@ -554,6 +555,45 @@ func (r *runner) do(a *act) {
 	default:
 		tr.Fatal("unknown op %q", a.Op)
 	}
+}
+
+// TLC's integers are 32 bit.  The specification uses n only through min(max(n, 0), Len) with
+// Len <= 1024, so an n beyond +-2^30 is logged clamped to +-2^30 (same meaning) and the real
+// 64-bit argument is kept beside it for the reader of a replay: nreal = sign + four 16-bit limbs
+// (least significant first), ncls = "huge" / "-huge".  The call itself gets the real n.
+const nCap = 1 << 30
+
+func clampN(n int) int {
+	if n > nCap {
+		return nCap
+	}
+	if n < -nCap {
+		return -nCap
+	}
+	return n
+}
+
+func noteN(rec tr.E, n int) {
+	if clampN(n) == n {
+		return
+	}
+	neg := n < 0
+	u := uint64(n)
+	if neg {
+		u = uint64(-(n + 1)) + 1
+	}
+	rec["nreal"] = tr.E{"neg": neg, "l": toLimbs(u, "i64")}
+	if neg {
+		rec["ncls"] = "-huge"
+	} else {
+		rec["ncls"] = "huge"
+	}
+}
+
+// the 64-bit boundary budgets: "no limit" idioms and what sits next to an overflow of pos+n
+func extremeN(pos int) []int {
+	return []int{math.MaxInt, math.MaxInt - 1, math.MaxInt - pos, math.MaxInt - pos + 1, math.MinInt, math.MinInt + 1,
+		1 << 40, -(1 << 40), math.MaxInt32 + 1, math.MinInt32 - 1, math.MaxInt/2 + 1, 1 << 32}
 }
 
 func mask(w string) uint64 {
@@ -619,7 +659,8 @@ func (r *runner) randAdd(w string) []int {
 func (r *runner) pickN(l int) int {
 	switch r.rng.Intn(10) {
 	case 9:
-		return []int{math.MaxInt32, math.MinInt32, math.MaxInt32 - 1, 1 << 20}[r.rng.Intn(4)]
+		return []int{math.MaxInt32, math.MinInt32, math.MaxInt32 - 1, 1 << 20, math.MaxInt, math.MaxInt - 1, math.MaxInt - 3,
+			math.MinInt, 1 << 40, -(1 << 40)}[r.rng.Intn(10)]
 	case 0:
 		return -1
 	case 1:
@@ -662,9 +703,17 @@ func (r *runner) sweep(h, per int) {
 				n := r.pickN(l)
 				r.do(&act{Op: "iter", H: h, W: wd, Dir: dir, N: n, Pos: []int{0, 0, 1, 7}[r.rng.Intn(4)], Add: r.randAdd(wd)})
 			}
+			// 64-bit extremes of n at pos 0, 1, 3, 7: always on Bit1024, every third time on a word
+			if r.wld.univ == 1024 || r.rng.Intn(3) == 0 {
+				for k := 0; k < per; k++ {
+					pos := []int{0, 1, 3, 7}[r.rng.Intn(4)]
+					ex := extremeN(pos)
+					r.do(&act{Op: "iter", H: h, W: wd, Dir: dir, N: ex[r.rng.Intn(len(ex))], Pos: pos, Add: r.randAdd(wd)})
+				}
+			}
 			if wd != "u32" && r.rng.Intn(2) == 0 {
 				n := r.pickN(l)
-				if n < 0 || n > 5000 { // the list forms allocate n elements
+				if n < 0 || (n > 5000 && n != 1<<20) { // the list forms allocate n elements
 					n = l + 2
 				}
 				r.do(&act{Op: "getn", H: h, W: wd, Dir: dir, N: n})
@@ -805,11 +854,11 @@ func (r *runner) history(univ, nops int) {
 		case x < 95:
 			wd := r.widths()[r.rng.Intn(len(r.widths()))]
 			r.do(&act{Op: "iter", H: h, W: wd, Dir: []string{"f", "r"}[r.rng.Intn(2)], N: r.pickN(r.wld.popcount(h)),
-				Pos: r.rng.Intn(4), Add: r.randAdd(wd)})
+				Pos: []int{0, 1, 2, 3, 7, 64, 300, 1}[r.rng.Intn(8)], Add: r.randAdd(wd)})
 		default:
 			wd := r.widths()[r.rng.Intn(len(r.widths()))]
 			n := r.pickN(r.wld.popcount(h))
-			if n < 0 || n > 5000 {
+			if n < 0 || (n > 5000 && n != 1<<20) {
 				n = 0
 			}
 			r.do(&act{Op: "getn", H: h, W: wd, Dir: []string{"f", "r"}[r.rng.Intn(2)], N: n})
